@@ -243,6 +243,8 @@ S('cnt_churn_inside_destructor', 'counter/churn_seq.cpp', {'assert': 'C19'}, ext
 
 # ----------------------------------------------------------------------------------------------- C07: executors
 EXX = ['babylon/executor.cpp', 'babylon/basic_executor.cpp']
+for _loc, _bal in ((2, 1), (2, 0), (0, 1)):
+    S('tp_seq_stop_while_task_runs_local%d_balance%d' % (_loc, _bal), 'executor/tp_seq.cpp', {'assert': 'C07'}, defs=['VF_LOCAL=%d' % _loc, 'VF_BALANCE=%d' % _bal], extra=EXX, models=['sc'], bound=8)
 def tpx(name, ts, final, local=0, **kw):
     kw.setdefault('opts', {'loop:keep_execute': '4'})
     S('tp_' + name, 'executor/tp.cpp', kw.pop('props', {'assert': 'C07', 'stuck': 'C07'}), defs=['VF_LOCAL=%d' % local] + ['VF_T%d=%s' % (i, t) for i, t in enumerate(ts)] + ['VF_FINAL=' + final], extra=EXX, **kw)
@@ -290,23 +292,23 @@ afd('unless_false_two_deps', cond=0, unless=1, two=1, tiers=TH)
 LEVEL_TEXT = {
  'C01': 'Real ConcurrentBoundedQueue<two-word payload, VS> IR; client programs of 2-4 threads mixing push/pop/try_/push_n/pop_n/callback variants on capacities 1-2; oracle = exactly-once multiset, per-thread FIFO, fully published payload, try_ success when sequenced after enough completed operations.',
  'C02': 'Same queue scenarios with balanced push/pop counts; STUCK query: can any thread sleep in futex_wait with no later wake (lost wake-up/deadlock) - decided for every interleaving and store-buffer/reordering behaviour of the sc/tso/arm models; spurious wake-ups not relied on. The timed exclusive pop and spin-wait liveness are outside the claim (stated).',
- 'C03': 'Real ConcurrentFixedSwissTable (SSE group loads scalarised) with a harness hasher: two emplaces of one key (one winner, same element) and emplace vs find reading the mapped value (found element fully constructed) under sc/arm. Growing set, full-table failure and growth races are outside the current scenarios (stated).',
+ 'C03': 'Real ConcurrentFixedSwissTable (SSE group loads scalarised) with a harness hasher: two emplaces of one key (one winner, same element) and emplace vs find reading the mapped value (found element fully constructed) under sc/arm; sequential 64-bucket probing agreement between emplace and find/contains/count with prefilled groups and symbolic home group/tag. Growing set, full-table failure and growth races are outside the current scenarios (stated).',
  'C04': 'Real ConcurrentVector<E,0> (block size 1-2) grown by 2 threads: same index => same address, constructed value visible, ctor/dtor balance after destruction, snapshot reader vs grower, gc() vs grower with symbolic clock; RetireList driven directly with a symbolic clock (1024 s windows at 0 and across the 16-bit timestamp wrap): nothing freed < 64 s after retirement.',
  'C05': 'Real anyflow sources (builder, graph, vertex, data, dependency, closure, executor .cpp + headers) with the graph built by the real GraphBuilder during set-up. (a) Sequential whole-pipeline scenarios on the inplace executor: a chain, and a fan-out/fan-in graph with on/unless conditional dependencies, an essential dependency, an unneeded vertex, symbolic inputs / condition / requested-target set, run twice with reset() in between; oracle = a reference demand-driven evaluation (target values, which vertices ran, once, after their dependencies, closure finished rc 0). (b) Concurrent unit scenarios of the dependency counter protocol: graph->run() (activation) on one thread racing with the external publication of the condition and of the target data on two other threads through the real emit()/release() path, for on/unless, condition true/false, one or two dependencies on the same data; the harness executor only records vertex invocations; oracle = exactly one invocation of the dependent vertex, after the condition was evaluated and (if it holds) the target was ready, producers activated at most once / never when not needed. Thread-pool executor, channels, mutable dependencies and >3 threads are outside the scenarios (stated).',
  'C06': 'Sequential mode on the real memory_resource.cpp: concrete prefix up to a page-array boundary, then 2 symbolic (size from an 8-entry boundary table, alignment 1..512) requests with optional destructor registration; oracle: aligned, owned, disjoint, canaries intact, release() returns each page / oversize block once with its size+alignment, destructors once in reverse order, accounting zero, reusable. Shared/swiss variants outside.',
  'C08': 'Real FutureContext<two-word value, VS> / CountDownLatch: set_value vs on_finish (before/after/concurrent) vs get / wait_for(symbolic timeout incl. negative and the 2^16 largest values, symbolic monotone ns clock < 2^16); callbacks once with the value, get returns it, wait_for true => ready, false => time elapsed; STUCK query for get.',
  'C09': 'Real Epoch (x86-64 tick): reader regions (accessor, nested, moved between threads, second slot, released/unlocked accessor) vs unlink+tick+low_water_mark; a reader that still sees the old cell never observes it reclaimed; released/unlocked accessors do not hold the mark back. sc/tso/arm.',
- 'C10': 'Sequential mode on the real keep_reclaim(): 0-2 retires, optional reader region closing at a symbolic back-off sleep, stop marker; every reclaimer exactly once, never while the region is open, before the collector returns. Concurrent collector scenarios are thorough-tier only (slow).',
+ 'C10': 'Sequential mode on the real keep_reclaim(): 0-2 retires, optional reader region closing at a symbolic back-off sleep, stop marker; every reclaimer exactly once, never while the region is open, before the collector returns; plus a region-enter and a retire injected during the collector's queue intake (reclaimer move-constructor as re-entrant scheduling hook; plain and wrapped two-part intake): that object is never reclaimed while the region is open. Concurrent collector scenarios are thorough-tier only (slow).',
  'C13': 'Real coroutine futex.cpp + DepositBox with hand-made coroutine frames (real await_suspend, resume through the bound executor): wake_one / wake_all / cancel / new waiter races for 2 waiters; each suspension resumed exactly once on its executor, wake_one resumes a non-cancelled waiter if one exists, non-matching value does not suspend. Task/Future awaiters are outside.',
  'C14': 'Real IdAllocator<uint32_t> (pop vs pop-push-pop ABA, mint race, reuse when free values exist, symbolic alloc/free history of 4 ops vs reference set incl. for_each and end()) and DepositBox (2-3 takers one winner, stale id never matches across slot reuse). Per-thread ids across thread exit are outside.',
  'C15': 'Real ConcurrentTransientTopic<two-word payload, VS>: publish / publish_n / close vs 1-2 consumers (consume, consume(2)), two publishers; exact sequence then end marker, payload fully visible, STUCK query for consumers. clear()/reuse outside.',
  'C16': 'Real ConcurrentExecutionQueue with a harness Executor (inline / parked consumer): items consumed exactly once, never two consumers at once (plain-access detector), no item stranded once every accepted consumer has run. Refused launches and join() are thorough-tier.',
  'C17': 'Real CachedPageAllocator over a recording upstream: ownership detector (a page is never held twice / returned upstream twice / returned while held) and conservation upstream_out - upstream_in == held + cached. Object pool, batch/counting allocators outside.',
  'C18': 'Sequential mode on the real ConcurrentTransientHashSet: default / sized(4,16) construction, N inserts with duplicates (N symbolic <= 6, and exactly 34 to cross two chained tables), then size/empty/iteration/find/contains vs a reference bitmap. clear/reserve/rehash/copy/move/swap histories outside.',
- 'C07': 'Real ThreadPoolExecutor (started with 0 OS threads; a harness thread runs the real keep_execute() worker loop): submit()/execute() of 1-2 tasks, the STOP markers of stop(), join == worker returned; every accepted task ran exactly once on a thread that reports is_running_in(), before the stopper passes its join; STUCK query on the futex-based global queue. Work stealing between 2 workers is thorough-tier; tasks spawning tasks, balance thread, new-thread executor outside.',
+ 'C07': 'Real ThreadPoolExecutor (started with 0 OS threads; a harness thread runs the real keep_execute() worker loop): submit()/execute() of 1-2 tasks, the STOP markers of stop(), join == worker returned; every accepted task ran exactly once on a thread that reports is_running_in(), before the stopper passes its join; STUCK query on the futex-based global queue. Sequential re-entrant scenarios run the real start()/stop()/keep_execute()/keep_balance() with std::thread played by the harness: a task that spawned a child into its local queue is pre-empted while another thread stops the pool and the balance thread performs its last steal pass (local capacity 0/2, balance thread on/off, symbolic spawn): nothing accepted is lost behind the STOP tokens. Work stealing between 2 workers is thorough-tier; concurrent tasks-spawning-tasks and the new-thread executor are outside.',
  'C11': 'Sequential mode: real babylon serialization traits + BABYLON_COMPATIBLE aggregates over the real protobuf coded-stream inline code, with a model of the out-of-line libprotobuf stream functions (harness/serial/pbmodel.cpp, validated against the real library by native replay of every witness): round trip and predicted size for ALL values of uint64 / int32+bool / nested aggregate, varint wire compatibility with a reference encoder, unknown fields of every wire type skipped, arbitrary input bytes up to 4 (terminates, no read past the input, success => re-serialises and re-parses to itself). Strings, containers, smart pointers, protobuf messages, stream-backed inputs outside.',
  'C12': 'Sequential mode on the real ReusableVector<uint64_t> over ExclusiveMonotonicBufferResource: 2-3 symbolic operations (push_back, pop_back, insert(pos), erase(pos), resize, clear, assign with symbolic positions/counts) from an empty or 3-element vector, compared after every step with a reference array; size <= constructed_size <= capacity, clear keeps capacity. Strings, nested reusable elements, manager cadence outside.',
- 'C19': 'Sequential thread generations (each generation = a new logical thread after the previous one exited and its thread_local destructors ran; natively replayed on real std::threads): adder/summer exact across thread exit and thread-id reuse, maxer/miner extreme of the period for arbitrary 64-bit inputs, local() stable, for_each vs for_each_alive, a new counter recycling a destroyed one starts from zero. Concurrent counting-vs-reading outside.',
+ 'C19': 'Sequential thread generations (each generation = a new logical thread after the previous one exited and its thread_local destructors ran; natively replayed on real std::threads): adder/summer exact across thread exit and thread-id reuse, maxer/miner extreme of the period for arbitrary 64-bit inputs, local() stable, for_each vs for_each_alive, a new counter recycling a destroyed one starts from zero; a new CompactEnumerableThreadLocal instance created and used from inside another instance's destructor wipe loop (default-constructor hook) starts from zero and keeps its contents. Concurrent counting-vs-reading outside.',
  'C20': 'Sequential mode: real LogStreamBuffer + LogEntry::append_to_iovec for every length <= 40 (page 16): scatter list == bytes written, every page once; real AsyncFileAppender write() x3 with symbolic entry lengths 0..2, stop marker, real keep_writing(): file == concatenation, pages returned. Concurrent appender scenarios thorough-tier.',
 }
 LEVEL_NOTE = {'C05': 'C05 additionally trusts the harness models of a few out-of-line libstdc++/abseil container functions (listed in the evidence assumptions).'}
